@@ -108,11 +108,17 @@ func newRprog(p program) *rprog {
 	rp := &rprog{prog: p, brk: map[int]circuitbreaker.CircuitBreaker[int]{}, lim: map[int]ratelimiter.RateLimiter[int]{}, bh: map[int]bulkhead.Bulkhead[int]{}, caches: map[int]*icache{}}
 	for i, pl := range p.Pols {
 		i, pl := i, pl
+		// builders are sometimes built once early (result discarded) and then configured further: what the final
+		// Build returns must reflect exactly its own configuration
+		earlyBuild := (i+len(p.Pols)+int(pl.Listeners))%3 == 0
 		switch pl.Kind {
 		case "retry":
 			b := buildRetry(retryCfg{MaxRetries: pl.MaxRetries, Handle: pl.Handle, Abort: pl.Abort, ReturnLast: pl.ReturnLast})
 			if pl.LongDelay {
 				b.WithDelay(time.Hour)
+			}
+			if earlyBuild {
+				_ = b.Build()
 			}
 			if pl.has(lisSuccess) {
 				b.OnSuccess(rp.attemptEv(i, "retry.success"))
@@ -137,6 +143,9 @@ func newRprog(p program) *rprog {
 			rp.pols = append(rp.pols, b.Build())
 		case "breaker":
 			b := buildBreaker(*pl.Brk, func() int64 { return rp.now.Load() })
+			if earlyBuild {
+				_ = b.Build()
+			}
 			applyHandle[circuitbreaker.CircuitBreakerBuilder[int]](b, pl.Handle)
 			if pl.has(lisSuccess) {
 				b.OnSuccess(rp.attemptEv(i, "brk.success"))
@@ -236,6 +245,9 @@ func newRprog(p program) *rprog {
 			default:
 				b = fallback.BuilderWithFunc[int](fn)
 			}
+			if earlyBuild {
+				_ = b.Build()
+			}
 			applyHandle[fallback.FallbackBuilder[int]](b, pl.Handle)
 			if pl.has(lisSuccess) {
 				b.OnSuccess(rp.attemptEv(i, "fb.success"))
@@ -254,6 +266,9 @@ func newRprog(p program) *rprog {
 			}
 			rp.caches[i] = c
 			b := cachepolicy.Builder[int](c)
+			if earlyBuild {
+				_ = b.Build()
+			}
 			if pl.Key != "" {
 				b.WithKey(pl.Key)
 			}
@@ -328,6 +343,8 @@ func (rp *rprog) runExec(xi int, modelInv int, modelTimeouts int) (log []entry, 
 	var sawCancelEarly atomic.Bool
 	jl := judgeLast(rp.prog)
 	var stop atomic.Bool
+	var timesMu sync.Mutex
+	var firstStart, lastAttemptStart time.Time
 	body := func(exec failsafe.Execution[int]) (int, error) {
 		k := int(inv.Add(1)) - 1
 		l.add("inv", "fn.enter")
@@ -344,10 +361,40 @@ func (rp *rprog) runExec(xi int, modelInv int, modelTimeouts int) (log []entry, 
 			if exec.IsFirstAttempt() != (exec.Attempts() == 1) || exec.IsRetry() != (exec.Attempts() > 1) {
 				l.add("stats", fmt.Sprintf("fn.enter#%d IsFirstAttempt/IsRetry disagree with Attempts=%d", k, exec.Attempts()))
 			}
+			// start times and elapsed times are monotone: one StartTime per execution, no attempt starts before the
+			// execution did, attempt start times never go backwards, nothing lies in the future
+			st, at, now := exec.StartTime(), exec.AttemptStartTime(), time.Now()
+			timesMu.Lock()
+			if k == 0 {
+				firstStart, lastAttemptStart = st, at
+			}
+			switch {
+			case !st.Equal(firstStart):
+				l.add("stats", fmt.Sprintf("fn.enter#%d StartTime changed within the execution", k))
+			case at.Before(st):
+				l.add("stats", fmt.Sprintf("fn.enter#%d AttemptStartTime is %v before StartTime", k, st.Sub(at)))
+			case at.Before(lastAttemptStart):
+				l.add("stats", fmt.Sprintf("fn.enter#%d AttemptStartTime went backwards by %v", k, lastAttemptStart.Sub(at)))
+			case at.After(now) || st.After(now):
+				l.add("stats", fmt.Sprintf("fn.enter#%d start time lies in the future", k))
+			case exec.ElapsedAttemptTime() > exec.ElapsedTime()+time.Millisecond:
+				l.add("stats", fmt.Sprintf("fn.enter#%d ElapsedAttemptTime exceeds ElapsedTime", k))
+			}
+			if at.After(lastAttemptStart) {
+				lastAttemptStart = at
+			}
+			timesMu.Unlock()
 		}
 		st := estep{Res: 5}
 		if k < len(x.Script) {
 			st = x.Script[k]
+		}
+		if exec != nil && exec.IsHedge() && !exec.IsCanceled() {
+			// E-seq hedges never fire by construction (1h delay, or a 60ms delay that the short Timeout pre-empts by
+			// cancelling the parent). A hedge attempt that starts with a live context means the machine stalled past the
+			// hedge delay before the Timeout's timer ran: a timing disturbance. A hedge attempt that starts although its
+			// context is already cancelled is a genuine extra attempt and stays in the comparison.
+			sawCancelEarly.Store(true)
 		}
 		if st.Block && exec != nil && rp.prog.hasShort {
 			blocked.Add(1)
